@@ -359,3 +359,25 @@ func (p *Program) ConstFieldScan(key string) []string {
 	}
 	return bad
 }
+
+// AllocOnlyInScan: objects of the named struct type are allocated only in ctor.
+func (p *Program) AllocOnlyInScan(typeName, ctor string) []string {
+	want := p.goTypeByName(typeName)
+	if want == nil {
+		return []string{"unknown type " + typeName}
+	}
+	var bad []string
+	for fname, fn := range p.Funcs {
+		if fname == ctor {
+			continue
+		}
+		for _, b := range fn.Blocks {
+			for _, in := range b.Instrs {
+				if a, ok := in.(*ssa.Alloc); ok && types.Identical(a.Type(), want) {
+					bad = append(bad, fmt.Sprintf("%s allocates %s", fname, typeName))
+				}
+			}
+		}
+	}
+	return bad
+}
